@@ -26,12 +26,13 @@ def parseHSteps (s : String) : Option (List HStep) :=
   else s.toList.mapM fun c =>
     match c with
     | 'p' => some HStep.selfPend | 'q' => some HStep.extPend | 'r' => some HStep.readOne
-    | 'a' => some HStep.readAll | 'd' => some HStep.drop | 'm' => some HStep.move | _ => none
+    | 'a' => some HStep.readAll | 'd' => some HStep.drop | 'm' => some HStep.move
+    | 't' => some HStep.tryRead | 'w' => some HStep.waitConsumer | _ => none
 
 def parseCSteps (s : String) : Option (List CStep) :=
   s.toList.mapM fun c =>
     match c with
-    | 'r' => some CStep.read | 'd' => some CStep.drop | _ => none
+    | 'r' => some CStep.read | 'd' => some CStep.drop | 'A' => some CStep.readAllWake | _ => none
 
 def dropS (s : String) (n : Nat) : String := (s.drop n).toString
 
